@@ -146,10 +146,35 @@ def jitter(rng: random.Random, name: str, value):
         return value * rng.choice([0.5, 0.9, 1.0, 1.0, 1.1, 1.5])
     if isinstance(value, list):
         out = [jitter(rng, name, v) for v in value]
-        if len(out) == 2 and rng.random() < 0.4:
-            out.reverse()        # ranges given in descending order are valid unless the config model says otherwise
+        if len(out) == 2 and all(isinstance(v, (int, float)) and not isinstance(v, bool) for v in out):
+            r = rng.random()     # ranges given in descending order are valid unless the config model says otherwise
+            if r < 0.25:
+                out.reverse()
+            elif r < 0.5:
+                out = [out[1] + abs(out[1] - out[0]), out[1]]
         return out
     return value
+
+
+_ACC: dict = {}
+
+
+def _acceptor(opt: str):
+    """valid configuration <=> the library's own config model accepts it"""
+    if opt not in _ACC:
+        import os, sys
+        sys.path.insert(0, os.environ.get("VERIF_REPO", "/repo"))
+        import pyvolutionary
+        cls = getattr(pyvolutionary, FIX[opt]["config_class"])
+
+        def ok(d, cls=cls):
+            try:
+                cls(**d)
+                return True
+            except Exception:
+                return False
+        _ACC[opt] = ok
+    return _ACC[opt]
 
 
 def config_dict(rng: random.Random, opt: str, *, scale: float = 1.0, max_cycles: int | None = None,
@@ -157,9 +182,12 @@ def config_dict(rng: random.Random, opt: str, *, scale: float = 1.0, max_cycles:
     base = dict(FIX[opt]["config"])
     n0 = base["population_size"]
     if jit:
+        ok = _acceptor(opt)
         for k, v in list(base.items()):
             if k not in ("population_size", "max_cycles", "fitness_error", "early_stopping"):
-                base[k] = jitter(rng, k, v)
+                cand = {**base, k: jitter(rng, k, v)}
+                if ok(cand):          # field by field: a jittered value is kept only if the config model accepts it
+                    base = cand
     base["population_size"] = int(round(n0 * scale)) + plus      # plus: sizes that are not multiples of anything
     base["max_cycles"] = max_cycles if max_cycles is not None else rng.choice([1, 2, 3, 5])
     base["early_stopping"] = None
